@@ -161,10 +161,65 @@ CHECKS = {
                 'ctime-based implementation can meet the statement there).',
         'design_ref': 'DESIGN.md 4.3',
     },
+    'C01': {
+        'technique': TECH + 'histories discover -> (write .tdda -> reload, '
+                     'k cycles) -> verify / detect on shared frame objects '
+                     'that another client mutates in between (in-place '
+                     'detection, type repair); rex discovery through rexpy; '
+                     'frame fingerprints decide when closure is owed',
+        'text': 'Seeded exploration over frames of every recognised column '
+                'type and over call histories on shared frame objects and '
+                'real .tdda files. Closure (no exception, 0 failures, 0 '
+                'failing records) is demanded whenever the frame is still '
+                'the one discovery saw, for constraints used as dict, as a '
+                'file, and after 2-4 write/load cycles, repair on and off.',
+        'note': 'Per-dtype statistics are exercised by the workload only. '
+                'Frames with pandas-3 str / nullable string columns carry no '
+                'obligation (not in the recognised list). Wall clock not '
+                'stubbed here (see components).',
+        'design_ref': 'DESIGN.md 4.4',
+    },
+    'C06': {
+        'technique': TECH + 'detect ops by two users on one shared frame and '
+                     'one shared output path with stale files planted or '
+                     'left by earlier ops; differential against verify on an '
+                     'identical copy; per-record M-rec model; before/after '
+                     'frame and path-state audit',
+        'text': 'Seeded exploration with the stale-output fault and the '
+                'shared-frame schedule (in-place columns of one user are '
+                'original fields for the next). Verdict maps must equal '
+                'plain verification, false flags must equal the model\'s '
+                'violators, counts must partition the rows, the input frame '
+                'must be untouched unless in_place, and the output file may '
+                'exist afterwards only if a constraint failed.',
+        'note': 'Trusted: models/records.py (abstains on type-mismatched '
+                'bounds, inf/NaN bounds, bool under sign, float32 columns, '
+                'integers beyond 2^53 under fuzzy precision, columns retyped '
+                'by repair). Two known findings listed.',
+        'design_ref': 'DESIGN.md 4.4',
+    },
+    'C09': {
+        'technique': TECH + 'write/load cycles over real files (shorter over '
+                     'longer content, shared paths), old creation stamps '
+                     'planted so that re-stamping on load is observable, '
+                     'verdicts via dict / path / reloaded object, noise '
+                     'injection (unknown kinds, # keys, null values)',
+        'text': 'Seeded exploration over discovered and hand-written '
+                'constraint sets (every kind, precision dicts, date bounds '
+                'with fractions, unicode, regexes with backslashes and '
+                'quotes) and 1-4 write/load cycles: identical text, valid '
+                'UTF-8 JSON without trailing whitespace, identical verdicts '
+                'whichever way the constraints are supplied, ignorable '
+                'entries ignored.',
+        'note': 'Whole-text identity demanded when tddafile is passed on '
+                'both sides, else on the fields section. One known finding '
+                '(date-only bounds gain 00:00:00 on the first cycle).',
+        'design_ref': 'DESIGN.md 4.4',
+    },
 }
 
 NOT_BUILT = {p: 'claimed in DESIGN.md; machine under construction, no check registered yet'
-             for p in ('C01', 'C06', 'C08', 'C09', 'C17')}
+             for p in ('C08', 'C17')}
 
 NOT_APPLICABLE = {
     'C02': 'pure function of (frame, constraint set, epsilon, type_checking): '
